@@ -190,6 +190,8 @@ def main(tier, replay=None):
     for sp in specs:
         sp.setdefault("plan", [("kill", 3, False), ("kill", 2, True)])
     sc.random_runs(specs)
+    # live paths whose numbers contain one another as strings (21 and 211): the record of jobs in flight is kept by path number
+    sc.random_runs(S.renumbered_specs(chk.seed + 6, 12 if q else 80))
     chk.assumptions += ["one-worker runs are compared byte for byte (infretis_data.txt; restart.toml as a parsed dict without the "
                         "restarted_from bookkeeping key); allowmaxlength = true as the property's scope note says",
                         "the lattice plug-in engine produces integer order parameters, lossless at six decimals; the TurtleMD runs use the "
